@@ -3,8 +3,10 @@
 P="$1"; C="$2"; T="${3:-quick}"
 cd /repo || exit 2
 if [ -n "$(git status --porcelain)" ]; then echo "/repo dirty, refusing"; exit 2; fi
-if ! git apply --3way "$P" 2>/tmp/try_mutant.err && ! git apply "$P" 2>>/tmp/try_mutant.err; then echo "patch does not apply"; cat /tmp/try_mutant.err; git reset -q --hard HEAD; exit 2; fi
-cd /verif && ./check "$C" --tier "$T" > /tmp/try_mutant.$C.log 2>&1; rc=$?
-cd /repo && git reset -q --hard HEAD && git checkout -- . 
+restore() { cd /repo && git reset -q --hard HEAD; }
+trap restore EXIT INT TERM HUP
+if ! git apply "$P" 2>/tmp/try_mutant.err && ! git apply --3way "$P" 2>>/tmp/try_mutant.err; then echo "patch does not apply"; cat /tmp/try_mutant.err; exit 2; fi
+cd /verif && timeout 1500 ./check "$C" --tier "$T" > /tmp/try_mutant.$C.log 2>&1; rc=$?
+restore
 grep -E "VIOLATION|key=|KNOWN-FINDING|MACHINERY|^\[C" /tmp/try_mutant.$C.log | head -12
 echo "exit=$rc"
